@@ -356,7 +356,13 @@ func (c *reusableConn) exchange(ctx context.Context, q *[]byte) (*[]byte, error)
 	_, err := c.c.Write(*q)
 	if err != nil {
 		c.closeWithErr(err)
-		// A reply may have been delivered while we were writing.
+		// A reply may have been delivered while we were writing. Or the reader
+		// has read it and is about to hand it over. The reader returns when
+		// the connection was closed, no reply will be delivered after that.
+		select {
+		case <-c.readLoopDone:
+		case <-ctx.Done():
+		}
 		select {
 		case resp := <-respChan:
 			binary.BigEndian.PutUint16(*resp, orgId)
